@@ -69,6 +69,7 @@ func c04(p *core.Prog, r *core.Report) {
 	c04IDs(p, r, locks)
 	c04Goroutines(p, r)
 	c03LockOrder(p, r, "C04-R6")
+	noReentrantLock(p, r, locks, "C04-R6")
 	r.Rule("C04-R7", "E6 census/paths", 3, "pooled per-call objects are reset when taken from the pool")
 	c04Pools(p, r)
 }
@@ -861,4 +862,77 @@ func isFreshAllocValue(v ssa.Value) bool {
 		return x.Heap || true
 	}
 	return false
+}
+
+// noReentrantLock: a goroutine that holds an object's mutex does not call a
+// method of the same object that acquires that mutex again. For a sync.Mutex
+// that is an immediate self-deadlock; for the read side of a sync.RWMutex it
+// deadlocks as soon as a writer asks for the lock between the two read
+// locks (every later reader and writer then waits for ever). "The same
+// object": the call's receiver is the value whose mutex was locked in this
+// function, or - when the lock is held on entry, as in the *Locked helpers -
+// the function's own receiver.
+func noReentrantLock(p *core.Prog, r *core.Report, locks *core.Locks, rule string) {
+	// direct acquisitions on the receiver, per method
+	acqOnRecv := map[*ssa.Function]map[types.Object]bool{}
+	for _, f := range p.SrcFuncs {
+		if f.Signature.Recv() == nil || len(f.Params) == 0 {
+			continue
+		}
+		core.EachInstr(f, func(i ssa.Instruction) {
+			if obj, acq, base, ok := core.LockOpBase(i); ok && acq && base == ssa.Value(f.Params[0]) {
+				if acqOnRecv[f] == nil {
+					acqOnRecv[f] = map[types.Object]bool{}
+				}
+				acqOnRecv[f][obj] = true
+			}
+		})
+	}
+	n, bad := 0, 0
+	for _, f := range p.SrcFuncs {
+		if !strings.HasPrefix(pkgOf(f), core.Root) {
+			continue
+		}
+		f := f
+		// where this function itself locked: obj -> bases
+		own := map[types.Object]map[ssa.Value]bool{}
+		core.EachInstr(f, func(i ssa.Instruction) {
+			if obj, acq, base, ok := core.LockOpBase(i); ok && acq {
+				if own[obj] == nil {
+					own[obj] = map[ssa.Value]bool{}
+				}
+				own[obj][base] = true
+			}
+		})
+		core.EachInstr(f, func(i ssa.Instruction) {
+			c, ok := i.(*ssa.Call)
+			if !ok {
+				return
+			}
+			t := c.Call.StaticCallee()
+			if t == nil || acqOnRecv[t] == nil || len(c.Call.Args) == 0 {
+				return
+			}
+			held := locks.At(i)
+			recv := c.Call.Args[0]
+			for obj := range acqOnRecv[t] {
+				if held[obj] == core.NotHeld {
+					continue
+				}
+				n++
+				same := own[obj][recv]
+				if !same && len(own[obj]) == 0 && len(f.Params) > 0 && f.Signature.Recv() != nil && recv == ssa.Value(f.Params[0]) {
+					same = true // held on entry: the *Locked convention, the receiver's own mutex
+				}
+				if same {
+					bad++
+					r.Fail(rule, fname(f), "no re-entrant acquisition of "+core.LockName(obj)+" through "+t.Name(), p.Pos(i.Pos()),
+						fname(t)+" locks "+core.LockName(obj)+" of the object whose "+core.LockName(obj)+" is already held here: a writer asking for the lock in between (or a plain mutex) deadlocks the object for ever")
+				}
+			}
+		})
+	}
+	if bad == 0 {
+		r.Ok(rule, "package", "no re-entrant lock acquisition", "-", fmt.Sprintf("%d calls of locking methods made with the same mutex type held; none on the same object", n))
+	}
 }
